@@ -8,7 +8,7 @@ from .. import terms as tm
 from .. import oracles
 from ..model import AnalysisError, doc_default
 from ..constfold import table
-from .common import ob, need, call_name, count_form, role_of, roles, is_lit, lit, resolve_ite_free, linear_form
+from .common import ob, need, call_name, count_form, role_of, roles, is_lit, lit, resolve_ite_free, linear_form, strip_numeric
 from .. import symeval
 from . import c01, c06
 
@@ -428,6 +428,99 @@ def rule_shared(ctx):
         yield o
 
 
+# ------------------------------------------ PCSFORM / VELNORM / FIRSTN / CHROMAWINDOW
+
+
+def _args2(t, name):
+    if t.op == "call" and call_name(t) == name and len(t.a[1]) == 2:
+        return list(t.a[1])
+    return None
+
+
+def rule_pcsform(ctx):
+    """alignment PCS = sum_i max(min(ref_end_i, est_end_i) - max(ref_start_i, est_start_i), 0) / duration:
+    the clamp is applied per segment, before the sum (a disjoint pair contributes 0, not a negative length)."""
+    R = "C04.PCSFORM"
+    f = ctx.program.func("alignment.percentage_correct_segments", R)
+    s = ctx.S.get(f.qual)
+    main = [r for r in s.returns if not is_lit(r.term)]
+    need(len(main) == 1, R, "percentage_correct_segments: formula return not found")
+    t = main[0].term
+    good = False
+    why = "PCS is not sum(max(min(ends) - max(starts), 0)) / duration: %s" % tm.show(t, 5)
+    if t.op == "bin" and t.a[0] == "/" and t.a[1].op == "call" and call_name(t.a[1]) == "np.sum" and len(t.a[1].a[1]) == 1:
+        cl = _args2(t.a[1].a[1][0], "np.maximum")
+        if cl is not None:
+            inner = [x for x in cl if not tm.is_const(x, 0)]
+            zero = [x for x in cl if tm.is_const(x, 0)]
+            if len(inner) == 1 and len(zero) == 1 and inner[0].op == "bin" and inner[0].a[0] == "-":
+                ends = _args2(inner[0].a[1], "np.minimum")
+                starts = _args2(inner[0].a[2], "np.maximum")
+                if ends is not None and starts is not None:
+                    re_ok = {frozenset(roles(x)) for x in ends} == {frozenset({"R"}), frozenset({"E"})}
+                    rs_ok = {frozenset(roles(x)) for x in starts} == {frozenset({"R"}), frozenset({"E"})}
+                    good = re_ok and rs_ok
+                    why = "PCS = sum(max(min(ref_ends, est_ends) - max(ref_starts, est_starts), 0)) / duration (clamp inside the sum)"
+    yield ob(R, f, "alignment.percentage_correct_segments:formula", good, why, node=main[0].node)
+
+
+def rule_velnorm(ctx):
+    """transcription_velocity: reference velocities are rescaled to [0, 1] by the min/max over *all* reference
+    velocities (floored range 1) before the regression - not over the matched subset."""
+    R = "C04.VELNORM"
+    f = ctx.program.func("transcription_velocity.match_notes", R)
+    s = ctx.S.get(f.qual)
+    divs = [d for d in s.by_kind("div") if d.d.get("op", "/") == "/" and "ref_velocities" in tm.params_of(d.den)]
+    need(len(divs) >= 1, R, "match_notes: velocity rescaling division not found")
+    rv = tm.param("ref_velocities")
+    for i, d in enumerate(divs[:1]):
+        num, den = d.num, strip_numeric(d.den)
+        mins = [x for x in tm.walk(tm.binop("+", num, den)) if x.op == "call" and call_name(x) in ("np.min", "np.max", "builtins.min", "builtins.max") and "ref_velocities" in tm.params_of(x) and not (call_name(x).startswith("builtins.") and len(x.a[1]) == 2)]
+        whole = bool(mins) and all(len(x.a[1]) == 1 and x.a[1][0] is rv for x in mins)
+        shape = num.op == "bin" and num.a[0] == "-" and num.a[1] is rv and den.op == "call" and call_name(den) in ("builtins.max", "np.maximum") and any(tm.is_const(z, 1) for z in den.a[1])
+        yield ob(R, f, "transcription_velocity.match_notes:rescale", whole and shape, "(ref_velocities - min(ref_velocities)) / max(1, max(ref_velocities) - min(ref_velocities)), extrema over all reference notes" if whole and shape else "reference velocities are not rescaled by the extrema of the whole reference (%s / %s)" % (tm.show(num, 3), tm.show(den, 4)), node=d.node)
+
+
+FIRSTN = [("pattern.first_n_three_layer_P", "pattern.three_layer_FPR"), ("pattern.first_n_target_proportion_R", "pattern.establishment_FPR")]
+
+
+def rule_firstn(ctx, R="C04.FIRSTN"):
+    """first-n scores evaluate the first n estimated patterns: estimated_patterns[:n] (or [:min(len, n)])."""
+    for q, callee in FIRSTN:
+        f = ctx.program.func(q, R)
+        s = ctx.S.get(q)
+        cs = [c for c in s.calls() if c.callee == callee]
+        need(len(cs) == 1 and len(cs[0].args) >= 2, R, "%s: call of %s not found" % (q, callee))
+        a = cs[0].args[1]
+        good = False
+        why = "second argument %s is not estimated_patterns[:n]" % tm.show(a, 4)
+        if a.op == "sub" and a.a[0].op == "param" and a.a[0].a[0] == "estimated_patterns" and a.a[1].op == "slice":
+            lo, hi, st = a.a[1].a
+            lo_ok = tm.is_const(lo, None) or tm.is_const(lo, 0)
+            st_ok = tm.is_const(st, None) or tm.is_const(st, 1)
+            n = tm.param("n")
+            hi_ok = hi is n
+            if hi.op == "call" and call_name(hi) in ("builtins.min", "np.minimum") and len(hi.a[1]) == 2:
+                xs = list(hi.a[1])
+                cf = [count_form(x) for x in xs]
+                hi_ok = any(x is n for x in xs) and any(c is not None and c[1] is a.a[0] for c in cf)
+            good = lo_ok and st_ok and hi_ok
+            why = "scores %s(reference_patterns, estimated_patterns[:n])" % callee if good else "slice bound %s is not n: fewer (or other) than the first n estimated patterns are scored" % tm.show(hi, 3)
+        yield ob(R, f, "%s:first-n" % q, good, why, node=cs[0].node)
+        ra = cs[0].args[0]
+        yield ob(R, f, "%s:reference-whole" % q, ra.op == "param" and ra.a[0] == "reference_patterns", "all reference patterns are used")
+
+
+def rule_chromawindow(ctx):
+    """Shared with C07.CHROMATWIN: chroma and plain multipitch scores use the same caller-supplied window."""
+    from . import c07
+
+    for o in c07.rule_chromatwin(ctx):
+        if o.construct.startswith("multipitch.metrics"):
+            o.rule = "C04.CHROMAWINDOW"
+            yield o
+
+
 RULES = [
     ("C04.DOCDEFAULT", 40, rule_docdefault),
     ("C04.PRNORM", 13, rule_prnorm),
@@ -439,4 +532,8 @@ RULES = [
     ("C04.CONTTHRESH", 5, rule_contthresh),
     ("C04.OVERALLFORM", 3, rule_overallform),
     ("C04.MATCHDEF", 20, rule_matchdef),
+    ("C04.PCSFORM", 1, rule_pcsform),
+    ("C04.VELNORM", 1, rule_velnorm),
+    ("C04.FIRSTN", 4, rule_firstn),
+    ("C04.CHROMAWINDOW", 2, rule_chromawindow),
 ]
